@@ -17,6 +17,7 @@ var (
 	EOARich   = common.HexToAddress("0x2000000000000000000000000000000000000001") // code-less, with balance
 	EOAPoor   = common.HexToAddress("0x2000000000000000000000000000000000000002") // code-less, exists (nonce 1), zero balance
 	Nobody    = common.HexToAddress("0x2000000000000000000000000000000000000003") // does not exist
+	EmptyAcct = common.HexToAddress("0x2000000000000000000000000000000000000004") // exists but is empty (no balance, nonce or code)
 	AspectID1 = common.HexToAddress("0xa500000000000000000000000000000000000001")
 )
 
@@ -111,6 +112,7 @@ func BaseWorld(codes [][]byte) *World {
 	w.Set(Acct{Addr: Origin, Balance: new(big.Int).Set(eth), Nonce: 1})
 	w.Set(Acct{Addr: EOARich, Balance: big.NewInt(12345), Nonce: 0})
 	w.Set(Acct{Addr: EOAPoor, Balance: big.NewInt(0), Nonce: 1})
+	w.Set(Acct{Addr: EmptyAcct, Balance: big.NewInt(0), Nonce: 0})
 	for i, c := range codes {
 		w.Set(Acct{Addr: ContractAddr(i), Balance: big.NewInt(int64(1000 * (i + 1))), Nonce: 1, Code: c, Storage: map[common.Hash]common.Hash{}})
 	}
